@@ -385,7 +385,7 @@ func checkF15(c *Ctx, r *Report) {
 				switch cl {
 				case "os.Expand":
 				case "github.com/AlekSi/pointer.ToString", "github.com/AlekSi/pointer.GetString":
-				case "strings.TrimSpace", "slices.Delete", "builtin.len":
+				case "strings.TrimSpace", "slices.Delete", "slices.DeleteFunc", "builtin.len":
 					if !isList {
 						extra = append(extra, cl)
 					}
@@ -571,15 +571,28 @@ func checkListHelper(c *Ctx, r *Report, expFns []*ssa.Function) {
 				trims = true
 			case calleeIs(call, "os", "", "Expand"):
 				expands = true
-			case calleeIs(call, "slices", "", "Delete"):
+			case calleeIs(call, "slices", "", "Delete"), calleeIs(call, "slices", "", "DeleteFunc"):
 				deletes = true
 			}
 			if b, ok := call.Call.Value.(*ssa.Builtin); ok && b.Name() == "append" {
 				deletes = true // filter-by-append idiom
 			}
 		})
-		// the deletion must be guarded by emptiness of the item
+		// the deletion must be guarded by emptiness of the item (in the
+		// helper itself or in the predicate closure it passes)
 		guarded := false
+		scan := append([]*ssa.Function{fn}, fn.AnonFuncs...)
+		for _, sf := range scan {
+			forEachInstr(sf, func(in ssa.Instruction) {
+				bo, ok := in.(*ssa.BinOp)
+				if !ok || (bo.Op != token.EQL && bo.Op != token.NEQ) {
+					return
+				}
+				if k, ok := bo.Y.(*ssa.Const); ok && k.Value != nil && isConstString(bo.Y) && constString(k) == "" {
+					guarded = true
+				}
+			})
+		}
 		forEachInstr(fn, func(in ssa.Instruction) {
 			bo, ok := in.(*ssa.BinOp)
 			if !ok || (bo.Op != token.EQL && bo.Op != token.NEQ) {
